@@ -2,7 +2,7 @@
    recordBuilder: a record whose schema turned out not to be up to date is released before the rebuild (NewRecord
    releases it itself after detecting the dictionary overflow; the loop releases a non-nil record returned with an
    error).  Produce: every RecordMessage is released by a deferred call right after it has been written — also when
-   writing it fails; the messages AFTER a failing one are not visited.  Close releases the builders. *)
+   writing it fails; the messages AFTER a failing one are released by the error path (they were not before the fix).  Close releases the builders. *)
 From Verif Require Import Base.ListX.
 
 (* the retry loop: attempts that fail build a record that is released; the last attempt's record is handed on *)
@@ -16,20 +16,29 @@ Proof.
   inversion H as [|? ? Ha Hl]; subst. destruct a as [[|]|]; cbn in *; try congruence; rewrite (IH Hl); lia.
 Qed.
 
-(* Produce over the record messages: write outcomes (true = written); returns the messages released *)
-Fixpoint produce_released (rms : list N) (ok : list bool) : list N * bool :=
+(* Produce over the record messages: write outcomes (true = written); returns the messages released and whether Produce
+   returned an error.  [fixed]: the error path releases the messages behind the failing one (fix a8d92c38); before, they were
+   not visited. *)
+Fixpoint produce_released (fixed : bool) (rms : list N) (ok : list bool) : list N * bool :=
   match rms, ok with
-  | r :: tl, true :: oks => let '(rel, e) := produce_released tl oks in (r :: rel, e)
-  | r :: _, false :: _ => ([r], true)          (* the deferred Release runs, then Produce returns the error *)
-  | r :: tl, [] => let '(rel, e) := produce_released tl [] in (r :: rel, e)
+  | r :: tl, true :: oks => let '(rel, e) := produce_released fixed tl oks in (r :: rel, e)
+  | r :: tl, false :: _ => (if fixed then r :: tl else [r], true)   (* the deferred Release runs, then the error path *)
+  | r :: tl, [] => let '(rel, e) := produce_released fixed tl [] in (r :: rel, e)
   | [], _ => ([], false)
   end.
 
-(* no write error (the only errors are those of the IPC writer): every record handed to Produce is released exactly once *)
-Lemma produce_releases_all rms : produce_released rms (map (fun _ => true) rms) = (rms, false).
-Proof. induction rms as [|r tl IH]; cbn; [reflexivity|]. rewrite IH. reflexivity. Qed.
+(* whatever the IPC writer answers for each record (a caller-supplied allocator may refuse an allocation during a write):
+   every record handed to Produce is released exactly once *)
+Lemma produce_releases_all : forall rms ok, fst (produce_released true rms ok) = rms.
+Proof.
+  induction rms as [|r tl IH]; intros ok; cbn [produce_released]; [destruct ok; reflexivity|].
+  destruct ok as [|[|] oks].
+  - specialize (IH []). destruct (produce_released true tl []) as [rel e]. cbn [fst] in *. rewrite IH. reflexivity.
+  - specialize (IH oks). destruct (produce_released true tl oks) as [rel e]. cbn [fst] in *. rewrite IH. reflexivity.
+  - reflexivity.
+Qed.
 
-(* observation (not reachable with valid input: it needs the IPC writer to fail): a failing write leaves the later
-   records unreleased *)
-Lemma produce_error_leaks : fst (produce_released [1; 2; 3] [true; false; true]) = [1; 2].
-Proof. reflexivity. Qed.
+(* the code before the fix: a failing write leaves the later records unreleased *)
+Lemma produce_error_leaked : fst (produce_released false [1; 2; 3] [true; false; true]) = [1; 2] /\
+                             fst (produce_released true [1; 2; 3] [true; false; true]) = [1; 2; 3].
+Proof. split; reflexivity. Qed.
